@@ -399,6 +399,79 @@ def gen_cases(ctx, n, table):
     return cases
 
 
+def dep_tree(rng, table, depth):
+    """tree over EVERY enabled function of the registry (date/time and time-processing ones included): only parsed and asked
+    for its dependencies, never evaluated"""
+    if depth <= 0 or rng.random() < 0.35:
+        r = rng.random()
+        if r < 0.5:
+            return ('pv', 'p%d' % rng.randint(1, 7))
+        if r < 0.6:
+            return ('self',)
+        return ('lit',) + lit_text(None, rng.choice([0, 1, 2, 5, 100, 1000, 0.5]))
+    e = rng.choice([e for e in table if e['ENABLED'] is True and not e['ARG_KINDS']])
+    lo = e['MIN_ARGS'] or 0
+    hi = e['MAX_ARGS'] if e['MAX_ARGS'] is not None else lo + rng.choice([0, 1, 2])
+    return ('call', e['name'], [dep_tree(rng, table, depth - 1) for _ in range(rng.randint(lo, hi))])
+
+
+def expected_deps(t, self_id, table):
+    by = {e['name']: e for e in table}
+    if t[0] == 'pv':
+        return {'$' + t[1]}
+    if t[0] == 'self':
+        return {'$' + str(self_id)}
+    if t[0] == 'call':
+        d = set(by[t[1]]['DEPS'])
+        for a in t[2]:
+            d |= expected_deps(a, self_id, table)
+        return d
+    return set()
+
+
+def run_deps(ctx, res, n, table, tag):
+    """Expression.get_deps() = the `$id` of every port value read + the DEPS of every function called, for expressions parsed
+    one after the other in the same process (what one expression is asked must not change what the next one answers)"""
+    from qtoggleserver.core import expressions
+    from qtoggleserver.core.expressions import ROLE_VALUE
+    rng = ctx.rng
+    rows, meta = [], []
+    for _ in range(n):
+        t = dep_tree(rng, table, rng.choice([1, 1, 2, 3]))
+        if t[0] != 'call':
+            continue
+        self_id = rng.choice(['p1', 'p2', 'p9'])
+        for _ in range(rng.choice([1, 1, 2])):          # a second, fresh parse of the same text must answer the same
+            try:
+                e = expressions.parse(self_id, text_of(t), ROLE_VALUE)
+                d = sorted(e.get_deps())
+            except Exception as exn:  # noqa: BLE001
+                res['tie_failures'].append({'expression': text_of(t), 'note': 'dependency stream: %s: %s' % (type(exn).__name__, exn)})
+                break
+            rows.append('(%s, %s, %s)' % (coq.string(self_id), coq_expr(t), coq.lst(d, coq.string)))
+            meta.append((self_id, t, d))
+    res['evaluations'] += len(rows)
+    res['distribution']['dependency_stream'] = res['distribution'].get('dependency_stream', 0) + len(rows)
+    if not ctx.model_ok or not rows:
+        return
+    outs = coq.eval_shards(ctx.workdir, 'c02alldeps' + tag, HEADER,
+                           ['Definition dcases : list (string * expr * list string) := [\n %s].\n' % ';\n '.join(rows[i:i + 1500])
+                            for i in range(0, len(rows), 1500)], ['bad_deps dcases'])
+    for k, (rc, lists, err) in enumerate(outs):
+        if rc != 0 or len(lists) != 1:
+            res['tie_failures'].append('coqc failed on the dependency stream: %s' % err[-600:])
+            continue
+        for i in lists[0]:
+            self_id, t, d = meta[k * 1500 + i]
+            want = sorted(expected_deps(t, self_id, table))
+            res['violations'].append({
+                'key': {'kind': 'dependencies', 'top': top_function(t)},
+                'what': 'get_deps() of "%s" (own port %s) is %r; the ports it reads and the DEPS of the functions it calls are %r'
+                        % (text_of(t), self_id, d, want),
+                'case': {'expression': text_of(t), 'self_id': self_id, 'note': 'parsed after the other expressions of this run, in one process'},
+                'observed': d})
+
+
 def boundary_product(table):
     """every function at its minimal arity applied to every tuple of a small boundary pool (thorough tier)"""
     pool = [0, 1, -1, 0.5, -0.5, 2.5, float('inf'), float('nan'), 2 ** 53 + 1]
@@ -428,7 +501,9 @@ def check(ctx, res):
         'random trees over the 37 stateless functions (depth <= 4, variadic arity <= min+3), literals/port values from a '
         'boundary-biased pool (+-0.0, inf, nan, 2^53+-1, 2^63.., halves, decimal fractions, bools), contexts mixing present / '
         'None / disabled / unknown ports and value/transform roles; distinct = distinct (expression text, context); '
-        'non-trivial = at least 2 function nodes and at least one port read')
+        'non-trivial = at least 2 function nodes and at least one port read. Dependency stream: trees over every enabled '
+        'function of the registry (date/time and time-processing functions included), parsed one after the other in one '
+        'process and asked for get_deps(), compared with model_deps (ports read + DEPS of the functions called)')
     cases = gen_cases(ctx, ctx.n(3000, 30000), table)
     if ctx.tier == 'thorough':
         cases += boundary_product(table)
@@ -436,6 +511,7 @@ def check(ctx, res):
     for i in range(0, len(cases), 4000):
         batch = cases[i:i + 4000]
         run_batch(ctx, res, batch, 'b%d' % i)
+    run_deps(ctx, res, ctx.n(1500, 12000), table, 'd')
     for c, t in cases:
         if n_funcs(t) >= 2 and reads_port(t):
             seen.add((text_of(t), repr(sorted(c['values'].items(), key=str)), repr(sorted(c['ports'].items(), key=str)), c['self_id']))
@@ -449,6 +525,7 @@ def search(ctx, res):
     cases = gen_cases(ctx, ctx.n(12000, 30000), table) + boundary_product(table)
     for i in range(0, len(cases), 4000):
         run_batch(ctx, res, cases[i:i + 4000], 's%d' % i)
+    run_deps(ctx, res, ctx.n(6000, 12000), table, 'sd')
 
 
 REPLAY_HELP = 'in /repo: expressions.parse(self_id, "<expression>", ROLE_VALUE).eval(EvalContext(values, now_ms)) with the ports of the case registered'
